@@ -451,6 +451,9 @@ func checkC10(c *Ctx) {
 					for _, s := range x.Steps {
 						if s.Chosen != 0 {
 							sw[wi*8]++
+							if ei%311 == 5 && sw[wi*8]%7 == 3 {
+								c.Sample(map[string]interface{}{"isolation": c10Iso{Enc: e.Name, Bytes: hexBytes(e.Fixed), Sched: x.Choices(), Salt: c.Salt}, "cpu0_trace": logs[0], "cpu1_trace": logs[1]})
+							}
 							break
 						}
 					}
@@ -529,7 +532,6 @@ func checkC10(c *Ctx) {
 	c.Traces = snapEvals + isoExecs
 	c.Exhaustive = true
 	c.Sample(c10Prog{Name: progs[nEncProgs].Name, PC: 0x0100, Steps: progs[nEncProgs].Steps, K: 5})
-	c.Sample(c10Iso{Enc: "E3 (EX (SP),HL)", Bytes: "E3", Sched: []int{0, 1, 0, 1, 1, 0}})
 	c.Assume("the scheduler explores sequentially consistent interleavings at memory/port callback granularity; unsynchronised accesses to package-level state between callbacks are the subject of the auxiliary free-running -race pass (bin/check C10 runs it, labelled sampling)")
 	c.Assume("the device used for snapshots answers independently of its history, so copying it is trivial")
 }
